@@ -97,6 +97,10 @@ def inst_sizes(cx, iid):
                 else:
                     okc = False
             okc = okc and seen_c == {"empty", "nonempty"}
+        if not okc and lf is not None:
+            # max(ceil(len / M), 1) - 1: the ceiling is 0 exactly for the empty packet, so max(.., 1) is the same count
+            if re.fullmatch(r"sub\(Ord::max\((?:1,div\(sub\(add\((?:MAX_FRAGMENT_SIZE,\[T\]::len\(arg1\)|\[T\]::len\(arg1\),MAX_FRAGMENT_SIZE)\),1\),MAX_FRAGMENT_SIZE\)|div\(sub\(add\((?:MAX_FRAGMENT_SIZE,\[T\]::len\(arg1\)|\[T\]::len\(arg1\),MAX_FRAGMENT_SIZE)\),1\),MAX_FRAGMENT_SIZE\),1)\),1\)", show(lf)):
+                okc = True
         if not okc:
             inst.violation(pn.path, "fragment count", "last_fragment_id is `%s`, expected ceil(len / MAX_FRAGMENT_SIZE) + (len == 0) - 1" % (show(lf) if lf else None))
         dg = R.body("PendingPacket::datagram")
